@@ -56,7 +56,27 @@ function instantiate(G, entry, name = '') {
 // ---------------------------------------------------------------------------------------------
 // dump the stub tree to the comparison shape
 
+// id of the dynamic slot instance a child of a dynamic-slot host is assigned to
+function dynSlotId(c) {
+  if (c._$slotElement && c._$slotElement._$dynId !== undefined) return c._$slotElement._$dynId
+  if (c.kind === 'virtual') for (const k of c.childNodes) { const r = dynSlotId(k); if (r !== undefined) return r }
+  return undefined
+}
+
 function dumpChildren(node, out) {
+  const sr = node.kind === 'el' && node.getShadowRoot && node.getShadowRoot()
+  if (sr && sr.slotById) {
+    // the light-DOM order of a dynamic-slot host has no meaning (content is appended per slot instance as slots come and
+    // go): group by slot instance, in slot-id order, and tag each top-level entry with it
+    const kids = node.childNodes.map((c, i) => ({ c, i, si: dynSlotId(c) }))
+    kids.sort((a, b) => ((a.si ?? -1) - (b.si ?? -1)) || (a.i - b.i))
+    for (const k of kids) {
+      const before = out.length
+      dumpNode(k.c, out)
+      for (let j = before; j < out.length; j += 1) out[j].si = k.si
+    }
+    return
+  }
   for (const c of node.childNodes) dumpNode(c, out)
 }
 
@@ -152,6 +172,10 @@ function cmpTrees(exp, act, where, out, opts) {
     }
     if (e.k !== a.k) {
       out.push({ where: w, id: e.id, ch: 'struct', name: 'kind', expected: descr(e), actual: descr(a) })
+      continue
+    }
+    if (e.si !== undefined && a.si !== undefined && e.si !== a.si) {
+      out.push({ where: w, id: e.id, ch: 'struct', name: 'slot-instance', expected: 'slot#' + e.si + ' ' + descr(e), actual: 'slot#' + a.si + ' ' + descr(a) })
       continue
     }
     if (e.k === 't') {
@@ -311,6 +335,82 @@ const handlers = {
     // after which a keyed update is not defined by the data diff any more: such histories leave the domain (counted)
     const dupKeys = () => stub.warnings.some((w) => w.includes('keys are not unique'))
     stub.warnings.length = 0
+    stub.resetSlotState()
+    let nextSlotId = stub.slotState.list.length
+    const VALUE_NAMES = ['sa', 'sb', 'sC', 'sd', 'item', 'al0', 'zz']
+    const SLOT_NAMES = ['', 's1', 's2']
+    const dynHosts = (root) => {
+      const out = []
+      const walk = (n) => {
+        if (n.kind === 'el' && n.getShadowRoot) { const sr = n.getShadowRoot(); if (sr && sr.slotById) out.push(sr) }
+        if (n.childNodes) for (const c of n.childNodes) walk(c)
+      }
+      walk(root)
+      return out
+    }
+    // slot operations of one step, in two phases: `planSlotOps` moves the slot state (which components created from now
+    // on, and the fresh side, start from) and returns concrete actions; `execSlotActions` performs them on live
+    // dynamic-slot components through the shadow-root protocol
+    const planSlotOps = (ops) => {
+      const actions = []
+      for (const op of ops) {
+        const list = stub.slotState.list
+        const len = list.length
+        if (op.kind === 0) {
+          if (!len) continue
+          const d = list[op.sel % len]
+          const name = VALUE_NAMES[op.name % VALUE_NAMES.length]
+          const value = evalData(op.val, pool)
+          stub.slotState.list = list.map((x) => (x === d ? { ...x, values: { ...x.values, [name]: value } } : x))
+          actions.push({ t: 'set', id: d.id, name, value, now: !!op.flag })
+        } else if (op.kind === 1 || op.kind === 4) {
+          if (!len) continue
+          const ds = [list[op.sel % len]]
+          if (op.kind === 4 && len > 1) { const d2 = list[(op.sel + 1 + (op.name % (len - 1))) % len]; if (d2 !== ds[0]) ds.push(d2) }
+          stub.slotState.list = list.filter((x) => !ds.includes(x))
+          const ids = ds.map((d) => d.id)
+          actions.push({ t: 'remove', ids: op.flag ? ids.reverse() : ids })
+        } else if (op.kind === 2) {
+          if (len >= 5) continue
+          const base = stub.DYN_SLOTS[op.sel % stub.DYN_SLOTS.length]
+          const d = { id: nextSlotId, name: SLOT_NAMES[op.name % SLOT_NAMES.length], values: { ...base.values, sa: evalData(op.val, pool) } }
+          nextSlotId += 1
+          const index = op.flag ? len : op.sel % (len + 1)
+          const l2 = list.slice(); l2.splice(index, 0, d)
+          stub.slotState.list = l2
+          actions.push({ t: 'insert', d, index })
+        } else if (op.kind === 3) {
+          if (!len) continue
+          const d = list[op.sel % len]
+          const name = SLOT_NAMES[op.name % SLOT_NAMES.length]
+          if (name === d.name) continue
+          stub.slotState.list = list.map((x) => (x === d ? { ...x, name } : x))
+          actions.push({ t: 'rename', id: d.id, name })
+        }
+      }
+      return actions
+    }
+    const execSlotActions = (actions, hosts) => {
+      for (const sr of hosts) {
+        for (const a of actions) {
+          if (a.t === 'set') {
+            const slot = sr.slotById(a.id)
+            if (!slot) continue
+            sr.replaceSlotValue(slot, a.name, a.value)
+            if (a.now) sr.applySlotValueUpdates(slot)
+          } else if (a.t === 'remove') {
+            const slots = a.ids.map((id) => sr.slotById(id)).filter(Boolean)
+            if (slots.length) sr.removeSlots(slots)
+          } else if (a.t === 'insert') {
+            sr.insertSlot(a.d, Math.min(a.index, sr.slots.length))
+          } else if (a.t === 'rename') {
+            const slot = sr.slotById(a.id)
+            if (slot) sr.renameSlot(slot, a.name)
+          }
+        }
+        sr.applySlotUpdates()
+      }
+    }
     try {
       inst = instantiate(G, req.entry)
       inst.w.create(datas[0])
@@ -322,7 +422,19 @@ const handlers = {
     for (let i = 1; i < datas.length; i += 1) {
       const U = reviveTree(req.trees[i - 1])
       let updThrew = null; let freshThrew = null; let fresh; let cur
-      try { inst.w.update(datas[i], U); cur = dumpRoot(inst.root) } catch (e) { updThrew = String(e && e.stack || e) }
+      const sops = (req.slotOps && req.slotOps[i - 1]) || []
+      try {
+        const before = planSlotOps(sops.filter((o) => o.before))
+        if (before.length) execSlotActions(before, dynHosts(inst.root))
+        // operations after the update act on the components that existed before it; components the update creates
+        // start from the state at the end of the step
+        const afterOps = sops.filter((o) => !o.before)
+        const hosts = afterOps.length ? dynHosts(inst.root) : []
+        const after = planSlotOps(afterOps)
+        inst.w.update(datas[i], U)
+        if (after.length) execSlotActions(after, hosts)
+        cur = dumpRoot(inst.root)
+      } catch (e) { updThrew = String(e && e.stack || e) }
       try { const f = instantiate(G, req.entry); f.w.create(datas[i]); fresh = dumpRoot(f.root) } catch (e) { freshThrew = String(e && e.stack || e) }
       if (dupKeys()) { steps.push({ step: i, mismatches: [], domainExit: 'non-unique-keys' }); break }
       const m = []
@@ -570,5 +682,6 @@ for await (const line of rl) {
     resp = { fatal: String(e && e.stack || e) }
   }
   stub.warnings.length = 0
+  stub.resetSlotState()
   process.stdout.write(JSON.stringify(resp === undefined ? {} : resp) + '\n')
 }
